@@ -352,19 +352,25 @@ fn apply_mutate_messages(
             return true;
         }
 
-        if let Err(e) = postcard_utils::to_extend_mut(&mutate.mutate_index, acks) {
-            error!("unable to serialize mutate index: {e}");
-        }
-
         trace!("applying mutate message for {:?}", mutate.message_tick);
+        let mut outdated = false;
         let len = apply_array(ArrayKind::Dynamic, &mut mutate.message, |message| {
-            apply_mutations(world, params, message, mutate.message_tick)
+            outdated |= !apply_mutations(world, params, message, mutate.message_tick)?;
+            Ok(())
         });
 
         match len {
             Ok(len) => {
                 if let Some(stats) = &mut params.stats {
                     stats.entities_changed += len;
+                }
+
+                // Don't acknowledge messages with discarded data. Newer messages aren't guaranteed
+                // to include it (because of the send rate), so the server should continue to resend it.
+                if !outdated {
+                    if let Err(e) = postcard_utils::to_extend_mut(&mutate.mutate_index, acks) {
+                        error!("unable to serialize mutate index: {e}");
+                    }
                 }
             }
             Err(e) => error!(
@@ -613,12 +619,14 @@ fn confirm_tick(
 }
 
 /// Deserializes and applies component mutations for an entity.
+///
+/// Returns `false` if the mutations were discarded as outdated.
 fn apply_mutations(
     world: &mut World,
     params: &mut ReceiveParams,
     message: &mut Bytes,
     message_tick: RepliconTick,
-) -> Result<()> {
+) -> Result<bool> {
     let server_entity = entity_serde::deserialize_entity(message)?;
     let data_size: usize = postcard_utils::from_buf(message)?;
 
@@ -626,7 +634,7 @@ fn apply_mutations(
         // Mutation could arrive after a despawn from update message.
         debug!("ignoring mutations received for unknown server's {server_entity:?}");
         message.advance(data_size);
-        return Ok(());
+        return Ok(true);
     };
 
     let world_cell = world.as_unsafe_world_cell();
@@ -656,7 +664,7 @@ fn apply_mutations(
         if !params.entity_markers.need_history() {
             trace!("ignoring outdated mutations for `{}`", client_entity.id());
             message.advance(data_size);
-            return Ok(());
+            return Ok(false);
         }
 
         let ago = history.last_tick().get().wrapping_sub(message_tick.get());
@@ -666,7 +674,7 @@ fn apply_mutations(
                 client_entity.id()
             );
             message.advance(data_size);
-            return Ok(());
+            return Ok(false);
         }
 
         history.set(ago);
@@ -725,7 +733,7 @@ fn apply_mutations(
 
     client_entity.flush();
 
-    Ok(())
+    Ok(true)
 }
 
 /// Borrowed resources from the world and locals.
